@@ -16,7 +16,7 @@ def run(cmd, **kw):
 
 def main():
     args = [a for a in sys.argv[1:] if not a.startswith('--')]
-    src, name, props = args[0], args[1], args[2:]
+    src, name, props = os.path.abspath(args[0]), args[1], args[2:]
     tier = 'quick'
     if '--tier' in sys.argv:
         tier = sys.argv[sys.argv.index('--tier') + 1]
